@@ -7,7 +7,7 @@
      ctypedescr_clear (:486)  (tp_clear: the cyclic GC drops the child references BEFORE dealloc)
    The key of a type is built from its shape (kind, primitive / length / ellipsis+abi) and the
    ADDRESSES of its child types (new_pointer_type :4924, new_array_type :4987, new_function_type
-   :6101), so address reuse after a free is the danger.  Objects therefore have an identity (oid,
+   :6025, keys at :6110-6116), so address reuse after a free is the danger.  Objects therefore have an identity (oid,
    never reused) and an address (reusable); the allocator is adversarial: [New] takes the address
    as an argument and only requires it to be unoccupied.
 
@@ -20,7 +20,8 @@ From Cffi Require Export C27.Keys C27.Gen.
 
 Definition shape := (N * Z)%type.      (* kind: 0 prim 1 void 2 pointer 3 array 4 function 5 aggregate;
                                           Z: primitive id / array length / ellipsis+abi / aggregate tag *)
-Definition key := (shape * list N)%type.   (* shape + addresses of the children *)
+Definition key := list Z.                  (* the words of the unique_key[] array handed to get_unique_type:
+                                              addresses of child types / static objects, and numbers *)
 
 Record tobj := { t_oid : N; t_addr : N; t_shape : shape; t_kids : list N (* oids *);
                  t_ukey : option key; t_zombie : bool }.
@@ -38,7 +39,13 @@ Fixpoint nlist_eqb (a b : list N) : bool :=
   | x :: a', y :: b' => N.eqb x y && nlist_eqb a' b'
   | _, _ => false
   end.
-Definition key_eqb (a b : key) : bool := shape_eqb (fst a) (fst b) && nlist_eqb (snd a) (snd b).
+Fixpoint zlist_eqb (a b : list Z) : bool :=
+  match a, b with
+  | [], [] => true
+  | x :: a', y :: b' => Z.eqb x y && zlist_eqb a' b'
+  | _, _ => false
+  end.
+Definition key_eqb (a b : key) : bool := zlist_eqb a b.
 
 Fixpoint find_obj (i : N) (h : list tobj) : option tobj :=
   match h with
@@ -52,7 +59,42 @@ Definition alive_nz (h : list tobj) (i : N) : bool :=
 Definition addr_of (h : list tobj) (i : N) : N :=
   match find_obj i h with Some o => t_addr o | None => 0%N end.
 
-Definition key_of (h : list tobj) (sh : shape) (kids : list N) : key := (sh, map (addr_of h) kids).
+(* ---- the key words, BUILT from the regenerated recipes of C27/Gen.v (one recipe per constructor, in slot
+   order).  A heap object's address is the word Z.of_N addr (>= 0); the static objects whose addresses
+   serve as keys (the primitive's entry of the types table, the string literal "void") are modelled as
+   pairwise different NEGATIVE words, i.e. static storage is assumed disjoint from the heap; number
+   words (length, flags) are the value cast to a pointer: value mod 2^64, so the open array's -1 is 2^64-1. *)
+Definition W64 : Z := 18446744073709551616.
+Definition recipe_of (kind : N) : list ksrc :=
+  if N.eqb kind 0 then primitive_key else if N.eqb kind 1 then void_key else
+  if N.eqb kind 2 then pointer_key else if N.eqb kind 3 then array_key else
+  if N.eqb kind 4 then function_key else [].
+Definition static_word (sh : shape) : Z := if N.eqb (fst sh) 1 then (-1)%Z else (- snd sh - 2)%Z.
+Definition aw (h : list tobj) (c : N) : Z := Z.of_N (addr_of h c).
+Definition hd_word (h : list tobj) (kids : list N) : Z := match kids with [] => 0%Z | c :: _ => aw h c end.
+Definition src_words (h : list tobj) (sh : shape) (kids : list N) (k : ksrc) : list Z :=
+  match k with
+  | KStatic => [static_word sh]
+  | KItem | KPtr | KResult => [hd_word h kids]       (* the first (for pointer and array: only) child *)
+  | KLen | KFlags => [(snd sh mod W64)%Z]
+  | KNargs => [Z.of_nat (length (tl kids))]
+  | KArgsStored | KArgsRaw => map (aw h) (tl kids)    (* which objects these are is decided by key_kids below *)
+  | KOther => [0%Z]                                   (* an expression outside the vocabulary: no information *)
+  end.
+Definition key_of (h : list tobj) (sh : shape) (kids : list N) : key :=
+  flat_map (src_words h sh kids) (recipe_of (fst sh)).
+
+(* the argument checks of the constructors: a primitive id / no number for void and pointer / an array
+   length that is -1 (open) or a Py_ssize_t >= 0 (new_array_type: "negative array length") / the flags word;
+   and the number of children each kind takes.  [New] rejects anything else. *)
+Definition wf_shape (sh : shape) (n : nat) : bool :=
+  let k := fst sh in let z := snd sh in
+  if N.eqb k 0 then (0 <=? z)%Z && Nat.eqb n 0 else
+  if N.eqb k 1 then (z =? 0)%Z && Nat.eqb n 0 else
+  if N.eqb k 2 then (z =? 0)%Z && Nat.eqb n 1 else
+  if N.eqb k 3 then (-1 <=? z)%Z && (z <? 9223372036854775808)%Z && Nat.eqb n 1 else
+  if N.eqb k 4 then (0 <=? z)%Z && (z <? W64)%Z && Nat.leb 1 n else
+  N.eqb k 5.
 
 Definition occupied (h : list tobj) (a : N) : bool := existsb (fun o => N.eqb (t_addr o) a) h.
 
@@ -130,11 +172,42 @@ Inductive op :=
 
 Inductive out := ORet (i : N) | ODone | OBad.
 
+(* ---- the cache protocol as the source has it NOW (C27/Gen.v, regenerated) *)
+(* ctypedescr_dealloc clears the weak references (so the cache's weakref to ct is dead, and weakref callbacks
+   have run) BEFORE it looks at the cache entry of ct's key *)
+Definition weakrefs_cleared_first : bool := dbefore DClearWeakrefs DRemoveKey gen_dealloc_order.
+(* ... and releases the children / the memory only after that *)
+Definition dealloc_order_as_modelled : bool :=
+  dlist_eqb gen_dealloc_order [DClearWeakrefs; DRemoveKey; DDecrefItem; DDecrefStuff; DFree].
+(* tp_clear drops the children (ct_itemdescr, ct_stuff) and keeps ct_unique_key, which dealloc needs *)
+Definition clear_drops_ukey : bool := existsb (cfield_eqb FUniqueKey) gen_clear_fields.
+Definition clear_as_modelled : bool :=
+  existsb (cfield_eqb FItem) gen_clear_fields && existsb (cfield_eqb FStuff) gen_clear_fields &&
+  negb clear_drops_ukey && negb (existsb (cfield_eqb FOther) gen_clear_fields).
+
 Definition set_zombie (os : list N) (o : tobj) : tobj :=
   if nmem (t_oid o) os
   then {| t_oid := t_oid o; t_addr := t_addr o; t_shape := t_shape o; t_kids := t_kids o;
-          t_ukey := t_ukey o; t_zombie := true |}
+          t_ukey := if clear_drops_ukey then None else t_ukey o; t_zombie := true |}
   else o.
+
+(* remove_dead_unique_reference(key), called by the dealloc of object o; hchk is the heap in which the weak
+   reference found under the key is tested: the one without o iff the weakrefs were cleared first *)
+Definition free_cache (c : list (key * N)) (ukey : option key) (hchk : list tobj) : list (key * N) :=
+  match ukey with
+  | Some k => match cache_get k c with
+              | Some j => if gen_remove_only_if_dead && alive_nz hchk j then c else cache_del k c
+              | None => c
+              end
+  | None => c
+  end.
+
+(* New is rejected (OBad) when: the handle is taken / a given child is dead / (dead code, see
+   C27_decayed_args_alive) / the address is occupied / the arguments are not a type description *)
+Definition new_pre (s : state) (h : N) (sh : shape) (kids0 kids : list N) (a : N) : bool :=
+  match hlookup h (handles s) with Some _ => true | None => false end
+  || negb (forallb (alive_nz (heap s)) kids0) || negb (forallb (alive_nz (heap s)) kids)
+  || occupied (heap s) a || negb (wf_shape sh (length kids0)).
 
 Definition set_kids (i : N) (kids : list N) (o : tobj) : tobj :=
   if N.eqb (t_oid o) i
@@ -148,9 +221,7 @@ Definition step (s : state) (o : op) : state * out :=
       (* kids0: what the caller passes; kids: what the new type references (arrays decayed for a function
          type).  The third test never fires on a reachable state (Proofs.ref_kids_alive). *)
       let kids := ref_kids (heap s) sh kids0 in
-      if match hlookup h (handles s) with Some _ => true | None => false end
-         || negb (forallb (alive_nz (heap s)) kids0) || negb (forallb (alive_nz (heap s)) kids)
-         || occupied (heap s) a
+      if new_pre s h sh kids0 kids a
       then (s, OBad)
       else
         let n := next_oid s in
@@ -163,12 +234,13 @@ Definition step (s : state) (o : op) : state * out :=
           let k := key_of (heap s) sh (key_kids (heap s) sh kids0) in
           match cache_get k (cache s) with
           | Some i =>
-              if alive_nz (heap s) i
-              then (* the existing type is returned, the candidate x is freed at once
+              if gen_insert_after_live_check && alive_nz (heap s) i
+              then (* get_or_insert_unique_type returns the live object BEFORE PyDict_SetItem:
+                      the existing type is returned, the candidate x is freed at once
                       (x->ct_unique_key == NULL: its dealloc does not touch the cache) *)
                    ({| heap := heap s; cache := cache s; next_oid := N.succ n; handles := (h, i) :: handles s |},
                     ORet i)
-              else (* dead weakref found: replaced by a weakref to x *)
+              else (* dead weakref found (or: the insertion is not guarded by the live test): replaced by a weakref to x *)
                    ({| heap := {| t_oid := n; t_addr := a; t_shape := sh; t_kids := kids; t_ukey := Some k;
                                   t_zombie := false |} :: heap s;
                        cache := cache_set k n (cache s); next_oid := N.succ n;
@@ -199,13 +271,7 @@ Definition step (s : state) (o : op) : state * out :=
                its weakref is dead (it may have been replaced by a live weakref to another object);
                then the children are released and the memory is freed *)
             let h' := heap_del i (heap s) in
-            let c' := match t_ukey o with
-                      | Some k => match cache_get k (cache s) with
-                                  | Some j => if alive_nz h' j then cache s else cache_del k (cache s)
-                                  | None => cache s
-                                  end
-                      | None => cache s
-                      end in
+            let c' := free_cache (cache s) (t_ukey o) (if weakrefs_cleared_first then h' else heap s) in
             ({| heap := h'; cache := c'; next_oid := next_oid s; handles := handles s |}, ODone)
       | None => (s, OBad)
       end
